@@ -5,12 +5,6 @@ Require Import PV.Lib.Bytes PV.Lib.BytesLemmas PV.Model.Armor PV.Spec.Rfc4880_ar
   PV.Proofs.Armor_lemmas PV.Proofs.Armor_lemmas2.
 Open Scope Z_scope.
 
-(* a line at which neither alternative of the armor expression can start *)
-Definition nostart (l : text) : bool :=
-  negb (eqb_bytes (strip_cr l) signed_begin) && match begin_magic l with None => true | Some _ => false end.
-(* a line of surrounding text: ASCII, no line feed inside *)
-Definition line_char (c : Z) : bool := ascii_char c && negb (c =? 10).
-
 Lemma wrap_nonempty s : s <> [] -> wrap s <> [].
 Proof.
   intros H. unfold wrap. destruct s as [|c s]; [congruence|].
@@ -256,12 +250,6 @@ Theorem unarmor_binary t : is_ascii_text t = false -> unarmor t = UBinary t.
 Proof. intros H. unfold unarmor, unarmor_gen. rewrite H. reflexivity. Qed.
 
 (* ---------- kinds ---------- *)
-Definition is_clear (k : kind) : bool := match k with KCleartext => true | _ => false end.
-Definition rejected (d : decision) : bool := match d with DValueError | DTypeError => true | _ => false end.
-
-Definition cls_eqb (a b : cls) : bool :=
-  match a, b with ClsKey, ClsKey | ClsMessage, ClsMessage | ClsSignature, ClsSignature => true | _, _ => false end.
-
 Theorem right_kind_accepted k : rejected (parse_decision (class_of k) (Some (magic_of k)) (is_clear k)) = false.
 Proof. destruct k; vm_compute; reflexivity. Qed.
 
@@ -284,6 +272,6 @@ Proof. destruct k; intros H; injection H as <- || discriminate; split; reflexivi
 Theorem armor_first_last_line k h p : exists mid,
   armor k h p = (begin_pfx ++ k ++ dash5 ++ [10]) ++ mid ++ (end_pfx ++ k ++ dash5 ++ [10]).
 Proof.
-  unfold armor. eexists. rewrite <- !app_assoc. f_equal. f_equal. f_equal. f_equal.
-  rewrite !app_assoc. f_equal. rewrite <- !app_assoc. reflexivity.
+  exists (concat (map (fun kv => hdr_line kv ++ [10]) h) ++ [10] ++ join [10] (wrap (b64_enc p)) ++ [10] ++ [61] ++ crc_text p ++ [10]).
+  unfold armor. rewrite <- !app_assoc. reflexivity.
 Qed.
